@@ -605,6 +605,7 @@ fn replay_one(rep: &mut Report, drv: &mut Driver, v: &Value) {
 fn corpus() -> Vec<(String, Prog)> {
     let mut out: Vec<(String, Prog)> = corpus_clauses().into_iter().map(|(n, p)| (n.to_string(), p)).collect();
     out.extend(corpus_implicit());
+    out.extend(corpus_desugared());
     out.extend(corpus_bare());
     out.extend(corpus_records());
     out.extend(corpus_matches());
@@ -728,6 +729,56 @@ fn corpus_implicit() -> Vec<(String, Prog)> {
             ),
         ));
     }
+    out
+}
+
+/// Class representatives for "an operator that desugars to a runtime call" (`l + r` on strings,
+/// `Lowerer::desugared_binop`): the LEFT operand is a lazy value — a bare call, a bare variable,
+/// a method call on a variable — and the RIGHT operand has effects NESTED inside it (a call in an
+/// argument, a parenthesised concatenation, an f-string part, a block that assigns the variable
+/// the left operand reads, a method call whose receiver is a call, a block that may return):
+/// the left operand is read / called before anything inside the right operand runs. Also the
+/// left-nested chain `a + b + c` and a concatenation as a call argument.
+fn corpus_desugared() -> Vec<(String, Prog)> {
+    use E::{Assign, Block, Concat, FStr, Host, If1, Int, Ret, Var};
+    let b = |e: E| Box::new(e);
+    let em = |k: i32, v: E| Host(H_EMIT, vec![Int(k), v]);
+    let tok = |k: i32, v: E| Host(H_TOK, vec![Int(k), v]);
+    let text = |s: &str| FStr(vec![Part::Str(s.to_string())]);
+    let es = |k: i32, v: E| Host(H_EMIT_S, vec![Int(k), v]);
+    // ids: 0 1 i32, 2 bool (parameters), 3: a Tok, 4: a String
+    let main = |body: Blk| Prog { fns: vec![Fn_ { params: vec![0, 1, 2], ret: T::S, body }], var_tys: vec![T::I, T::I, T::B, T::K, T::S, T::K] };
+    let decls = || vec![S::Let(3, tok(90, Var(0))), S::Let(4, es(91, text("s")))];
+    let lefts: Vec<(&str, E)> = vec![
+        ("a bare call", es(1, text("a"))),
+        ("a bare variable", Var(4)),
+        ("a method call on a variable", Host(H_TO_STRING, vec![Var(3)])),
+    ];
+    let rights: Vec<(&str, E)> = vec![
+        ("a call with a call in its argument", es(2, es(3, text("b")))),
+        ("a parenthesised concatenation", Concat(b(es(2, text("b"))), b(es(3, text("c"))))),
+        ("an f-string with an effectful part", FStr(vec![Part::Str("<".to_string()), Part::Expr(em(2, Var(1))), Part::Expr(tok(3, Var(0)))])),
+        ("a block that assigns the variable and logs", Block(Blk { stmts: vec![S::Do(Assign(4, b(es(2, text("z")))))], last: Some(b(es(3, Var(4)))) })),
+        ("a method call whose receiver is a call", Host(H_TO_STRING, vec![tok(2, Var(1))])),
+        ("a block that may return", Block(Blk { stmts: vec![S::Do(If1(b(Var(2)), Blk { stmts: vec![S::Do(Ret(b(es(2, text("r")))))], last: None }))], last: Some(b(es(3, text("c")))) })),
+    ];
+    let mut out = vec![];
+    for (ln, l) in &lefts {
+        for (rn, r) in &rights {
+            out.push((
+                format!("string +: the left operand ({ln}) is evaluated before anything inside the right operand ({rn})"),
+                main(Blk { stmts: decls(), last: Some(b(Concat(b(l.clone()), b(r.clone())))) }),
+            ));
+        }
+    }
+    out.push((
+        "string +: the chain a + b + c, operands left to right".to_string(),
+        main(Blk { stmts: decls(), last: Some(b(Concat(b(Concat(b(es(1, text("a"))), b(es(2, Var(4))))), b(es(3, text("c")))))) }),
+    ));
+    out.push((
+        "string +: a concatenation as a call argument, after an earlier argument's effect".to_string(),
+        main(Blk { stmts: decls(), last: Some(b(es(1, Concat(b(Var(4)), b(Block(Blk { stmts: vec![S::Do(Assign(4, b(es(2, text("z")))))], last: Some(b(es(3, es(5, Var(4))))) })))))) }),
+    ));
     out
 }
 
@@ -1186,7 +1237,7 @@ fn main() {
             if total_viol > rep.impl_violations.len() {
                 rep.notes.push(format!("{total_viol} violations found; the {} smallest with distinct keys are reported", rep.impl_violations.len()));
             }
-            rep.notes.push(format!("programs generated: {from}; argument tuples per program: 8; corpus programs: {} ({} one per clause of the statement; {} implicit host calls: f-strings with 2 and 3 parts x part kinds (host value with a logging to_string, effectful call, block with effect), the equality of the host type; {} bare variable / path as a constructor component assigned by a later component; {} records: every written order of R, P (two fields), G[T], H[T] x shapes of literal, 3 fields x 4 shapes of reading / assigning a field; {} matches: pattern variant x examinee variant, one named variant + `_`, guarded `_` between two variants)", corpus().len(), corpus_clauses().len(), corpus_implicit().len(), corpus_bare().len(), corpus_records().len(), corpus_matches().len()));
+            rep.notes.push(format!("programs generated: {from}; argument tuples per program: 8; corpus programs: {} ({} one per clause of the statement; {} implicit host calls: f-strings with 2 and 3 parts x part kinds (host value with a logging to_string, effectful call, block with effect), the equality of the host type; {} bare variable / path as a constructor component assigned by a later component; {} records: every written order of R, P (two fields), G[T], H[T] x shapes of literal, 3 fields x 4 shapes of reading / assigning a field; {} matches: pattern variant x examinee variant, one named variant + `_`, guarded `_` between two variants; {} desugared operators: string + with a lazy left operand x effects nested in the right operand)", corpus().len(), corpus_clauses().len(), corpus_implicit().len(), corpus_bare().len(), corpus_records().len(), corpus_matches().len(), corpus_desugared().len()));
         }
         Some("worker") => {
             if std::env::var("C08_VERBOSE").is_err() {
